@@ -64,6 +64,14 @@ def spec_cases(chk, zs, thorough):
             for flags in (("sxB",) if n > 1000 else ("sxB", "xR")):      # many tiny runs are quadratic in the Lean decoders
                 for codec in (0, 2):       # (the Lean snappy encoder is quadratic: kept to the smaller files)
                     out.append((z, [codec] * len(z.cols), flags, rng.randrange(1 << 30), [rs]))
+    # members of the footer / page headers beyond 64 KiB: min/max statistics of 70 000-byte string values (uncompressed:
+    # the Lean compressors are quadratic), with and without the optional metadata
+    z = zs.get("three")
+    if z is not None:
+        big = ("struct", [("leaf", zoolib.le(1, 8)), ("some", ("leaf", bytes((i * 11 + i // 253) % 256 for i in range(70000)))), ("list", [])])
+        small = ("struct", [("leaf", zoolib.le(2, 8)), ("nil",), ("list", [("leaf", zoolib.le(5, 4))])])
+        for flags in ("sx", "sex"):
+            out.append((z, [0] * len(z.cols), flags, rng.randrange(1 << 30), [[big, small], [small]]))
     return out
 
 
